@@ -25,6 +25,8 @@ const (
 )
 
 type jobRec struct {
+	arg       string // tag name of a tagging job
+	spawnStep int
 	kind, seq int
 	wfd       int
 	state     int
@@ -158,7 +160,7 @@ func (s *Sim) handle(ev simrt.Event) {
 					s.res.Count("probe_two_jobs_of_kind_"+simrt.KindNames[k], 1)
 				}
 			}
-			j := &jobRec{kind: k, seq: s.arrivedKind[k], wfd: int(ev.B), state: jBegin, held: -1}
+			j := &jobRec{kind: k, seq: s.arrivedKind[k], wfd: int(ev.B), state: jBegin, held: -1, arg: simrt.LastJobArg(k), spawnStep: s.stepNo}
 			s.arrivedKind[k]++
 			s.arrived++
 			s.jobs = append(s.jobs, j)
